@@ -176,6 +176,11 @@ def c02(ctx):
         if not view.startswith('ok:'):
             out.append((cid, 'accessors failed on an accepted slice: view=%s' % view))
             continue
+        if '!notutf8' in view:
+            # the harness asks core::str::from_utf8 about the text of every reachable FlatString (probe.rs, deep)
+            out.append((cid, 'from_bytes accepted a FlatString whose stored text is not well-formed UTF-8 '
+                             '(as_str() hands out an invalid &str; Props/C02_utf8: c02_utf8_accept_iff): %s' % view))
+            continue
         if caps_violations(view[3:]):
             out.append((cid, 'a container reports len > capacity: %s' % view))
         if kv.get('rt') != 'ok':
